@@ -90,7 +90,27 @@ func GenSpec(t *rapid.T) *Spec {
 	s.GovVotingPeriod = uint64(rapid.IntRange(1, 3).Draw(t, "govPeriod"))
 	s.GovStakeThresh = uint8(rapid.SampledFrom([]int{67, 90, 100}).Draw(t, "govThreshold"))
 	s.GovMinDeposit = uint64(rapid.SampledFrom([]int{0, 1, 100}).Draw(t, "govDeposit"))
-	s.WithRuntime = false
+	s.WithRuntime = rapid.IntRange(0, 2).Draw(t, "runtime") > 0
+	if s.WithRuntime {
+		s.RtGroup = uint16(rapid.IntRange(1, 3).Draw(t, "rtGroup"))
+		s.RtBackup = uint16(rapid.IntRange(1, 3).Draw(t, "rtBackup"))
+		s.RtStragglers = uint16(rapid.IntRange(0, 1).Draw(t, "rtStragglers"))
+		s.RtRoundTimeout = int64(rapid.IntRange(2, 5).Draw(t, "rtRoundTimeout"))
+	}
+	for i := 0; i < s.NEntities; i++ {
+		var roles []int
+		for j := 0; j < s.NodesPerEntity[i]; j++ {
+			r := 1
+			if s.WithRuntime {
+				r = rapid.SampledFrom([]int{1, 2, 3, 3}).Draw(t, "nodeRole")
+			}
+			if i == 0 && j == 0 {
+				r |= 1 // the anchor node always validates
+			}
+			roles = append(roles, r)
+		}
+		s.NodeRoles = append(s.NodeRoles, roles)
+	}
 	s.WithVault = rapid.IntRange(0, 2).Draw(t, "vault") == 0
 	nc := rapid.IntRange(0, 4).Draw(t, "ncross")
 	for i := 0; i < nc; i++ {
